@@ -373,6 +373,8 @@ theorem rebuild_specM {K : Nat} : ∀ (v : View) (old : RState) (s : St), RM K s
     | _ => simp only [GoodM] at hg
   | scope sid d kid _ => intro old s _ _ _ hc; simp [View.coreS] at hc
   | forRows en sel lists row _ => intro old s _ _ _ hc; simp [View.coreS] at hc
+  | eb kid _ => intro old s _ _ _ hc; simp [View.coreS] at hc
+  | res c x => intro old s _ _ _ hc; simp [View.coreS] at hc
   | forKeyed sel lists =>
     intro old s hi hg hw hc _
     cases old with
